@@ -19,6 +19,8 @@ type stepCtx struct {
 	sc   *Scenario
 	outs map[int][]byte        // bytes produced by encode steps
 	objs map[int]reflect.Value // destination objects (*S) of decode steps
+
+	emitLine func(string) // writes one trace line of the running step at once
 }
 
 func num(m map[string]interface{}, k string, def int) int {
@@ -70,11 +72,17 @@ func runScenario(idx int, sc *Scenario, first int) {
 		}
 		emit(fmt.Sprintf(`{"ev":"Intent","scen":%d,"step":%d}`, idx, k))
 		stepStart.Store(time.Now().UnixNano())
+		ctx.emitLine = func(line string) {
+			emit(fmt.Sprintf(`{"scen":%d,"sid":%s,"step":%d,%s}`, idx, strconv.Quote(sc.Sid), k, line))
+			stepStart.Store(time.Now().UnixNano()) // the watchdog limit is per emitted line
+		}
 		lines := ctx.runStep(k, st)
 		stepStart.Store(0)
 		for _, line := range lines {
-			emit(fmt.Sprintf(`{"scen":%d,"sid":%s,"step":%d,%s}`, idx, strconv.Quote(sc.Sid), k, line))
+			ctx.emitLine(line)
 		}
+		stepStart.Store(0)
+		emit(fmt.Sprintf(`{"ev":"StepEnd","scen":%d,"step":%d}`, idx, k))
 	}
 }
 
@@ -93,6 +101,10 @@ func (c *stepCtx) runStep(k int, st map[string]interface{}) []string {
 		return c.stepEncSweep(k, st)
 	case "decode":
 		return []string{c.stepDecode(k, st)}
+	case "deep":
+		return c.stepDeep(st)
+	case "reject":
+		return c.stepReject(st)
 	case "gc":
 		runtime.GC()
 		return []string{`"ev":"GC"`}
